@@ -251,6 +251,22 @@ func init() {
 		body := []sitem{{Kind: "probe", Name: "a"}, {Kind: "probe", Name: "v"}, {Kind: "let", Name: "a", Val: 7}, {Kind: "let", Name: "b", Val: 8}, {Kind: "set", Name: "v", Val: 9}, {Kind: "probe", Name: "a"}, {Kind: "probe", Name: "b"}, {Kind: "probe", Name: "v"}}
 		tail := []sitem{{Kind: "probe", Name: "a"}, {Kind: "probe", Name: "b"}, {Kind: "probe", Name: "v"}}
 		kinds := []string{"for", "fn", "partial", "content", "blkctx", "defblk", "forit", "fn0"}
+		// an indexed path (us[0].Name) read in a scope that only INHERITS the indexed variable (a function body,
+		// a partial, a default block, a loop inside one of these): the variable is still readable afterwards
+		for _, t := range [][2]string{
+			{`<% let f = fn() { %><%= us[0].Name %>|<%= len(us) %>|<%= us[1].Name %><% } %><%= f() %>|<%= len(us) %>`, "a|2|b|2"},
+			{`<%= partial("pu") %>|<%= us[0].Name %>`, "b/a/2|a"}, {`<% let g = fn() { %><%= for (i) in [0, 1] { %><%= us[i].Name %><% } %><%= len(us) %><% } %><%= g() %><%= g() %>`, "ab2ab2"},
+			{`<%= contentOf("nodef9") { %><%= us[1].Name %><%= len(us) %><%= for (u) in us { %><%= u.Name %><% } %><% } %>`, "b2ab"}, {`<%= blkctx({w: 1}) { %><%= us[0].Name %><%= us[1].Name %><%= len(us) %><% } %>`, "ab2"},
+			{`<%= partial("pl") %>`, "a;2b;2"}, {`<% let h = fn(k) { let n = us[k].Name
+ return n + len(us) } %><%= h(0) %><%= h(1) %>`, "a2b2"},
+		} {
+			c := RCase{Tmpl: t[0], Binds: []Bind{{"blkctx", vGo(105)}, {"us", vSlice("T0", vT0("a"), vT0("b"))}}, Parts: map[string]string{"pu": `<%= us[1].Name %>/<%= us[0].Name %>/<%= len(us) %>`, "pl": `<%= for (i) in [0, 1] { %><%= us[i].Name %>;<%= len(us) %><% } %>`}}
+			o := e.addRenderCase("indexed-inherited-variable", c)
+			e.Distinct(t[0])
+			if o.Class != "OK" || o.Out != t[1] {
+				e.Violate("c09-scope", fmt.Sprintf("%s rendered %q (%s %s), want %q", t[0], o.Out, o.Class, firstLine(o.Msg), t[1]), map[string]interface{}{"case": c, "observed": o})
+			}
+		}
 		// one block-helper call site evaluated several times under DIFFERENT scopes (the body of a function
 		// called twice, the inner one of two nested loops): the block sees the scope of THIS evaluation
 		for _, t := range [][2]string{
